@@ -8,7 +8,7 @@ From ScV Require Import C09.HashModel C09.HashProofs C09.PoolModel C09.PoolProof
 From ScV Require Import C09.HashArrayModel C09.HashArrayProofs C09.RecycleModel C09.RecycleProofs.
 From ScV Require Import C09.KeyValueModel C09.KeyValueProofs Gen.AvlBalance C09.AvlModel C09.AvlProofs.
 From ScV Require Import Gen.ContainersC09 Gen.AvlStepsC09 Gen.KeyValueC09 C09.GenTies C09.AvlSeqModel C09.AvlSeqProofs.
-From ScV Require Import C09.SharedModel C09.SharedProofs C09.HistoryProofs C09.RecyclePeak.
+From ScV Require Import C09.SharedModel C09.SharedProofs C09.HistoryProofs C09.RecyclePeak C09.AvlRelinkModel C09.AvlRelinkProofs.
 Import ListNotations.
 Local Open Scope Z_scope.
 
@@ -329,6 +329,99 @@ Theorem C09_avl_seq_insert_keeps_order :
     nth_error (inorder key (ins_after key t u x)) (S (Z.to_nat u)) = Some x.
 Proof. exact avl_seq_insert_keeps_order. Qed.
 Print Assumptions C09_avl_seq_insert_keeps_order.
+
+(* ---------- node objects with a history: avl_unlink_node and re-insertion of the same object ---------- *)
+(* A node object outside the tree keeps stale left / right / count (avl_unlink_node does not touch the node's own fields;
+   a caller-allocated node may hold anything).  The insert functions clear the object before linking it in
+   (C09_gen_avl_insert_clears ties this to the source), so re-inserting it is inserting a fresh node with that item,
+   WHATEVER the stale fields are: *)
+Theorem C09_avl_relink_like_fresh :
+  forall (key : Type) (cmp : key -> key -> Z) (o : nobj key) (x : key) (st : avl key) (t : tree key) (u : Z),
+    leaf_of key (init_node key o x) = leaf key x /\
+    avl_insert_obj key cmp st (init_node key o x) = avl_insert key cmp st x /\
+    ins_before_g key t u (leaf_of key (init_node key o x)) = ins_before key t u x /\
+    ins_after_g key t u (leaf_of key (init_node key o x)) = ins_after key t u x /\
+    app_max_g key t (leaf_of key (init_node key o x)) = app_max key t x /\
+    app_min_g key t (leaf_of key (init_node key o x)) = app_min key t x.
+Proof.
+  intros. split; [apply leaf_of_init|]. split; [apply insert_obj_fresh|]. rewrite leaf_of_init.
+  split; [apply ins_before_g_leaf|]. split; [apply ins_after_g_leaf|]. split; [apply app_max_g_leaf|apply app_min_g_leaf].
+Qed.
+Print Assumptions C09_avl_relink_like_fresh.
+
+(* C09_avl_seq_refines extended with avl_unlink_node (avl_at (u)) and avl_insert_before / avl_insert_after of a kept
+   object with a new item.  det0: ANY collection of node objects the caller owns at the start, each with arbitrary stale
+   subtrees and count.  For every history: tree = sequence, counts exact, outputs equal, and the caller keeps exactly
+   the objects he unlinked and did not insert again. *)
+Theorem C09_avl_seq_relink_refines :
+  forall (key : Type) (det0 : list (nobj key)) (ops : list (eop key)),
+    let '((st, det), outs) := erun_from key (avl_new key, det0) ops in
+    let '((q, d), souts) := esrun_from key ([], map (o_item key) det0) ops in
+    inorder key (a_top key st) = q /\ a_thread key st = q /\ wfc key (a_top key st) /\
+    cnt key (a_top key st) = Z.of_nat (length q) /\ outs = souts /\ map (o_item key) det = d.
+Proof. exact avl_seq_relink_refines. Qed.
+Print Assumptions C09_avl_seq_relink_refines.
+
+(* C09_avl_refines extended with avl_unlink_node (avl_search (x)) and avl_insert_node of a kept object with a changed
+   key (the use the header documents), from any det0 as above: tree = set, outputs = the set's, re-insertion reports
+   novelty like a fresh insert, an object whose new item is already present stays with the caller. *)
+Theorem C09_avl_relink_refines :
+  forall (key : Type) (cmp : key -> key -> Z),
+    (forall a b, Z.sgn (cmp a b) = - Z.sgn (cmp b a)) ->
+    (forall a b c, cmp a b < 0 -> cmp b c < 0 -> cmp a c < 0) ->
+    (forall a b c, cmp a b = 0 -> Z.sgn (cmp a c) = Z.sgn (cmp b c)) ->
+  forall (det0 : list (nobj key)) (ops : list (xop key)),
+    let '((st, det), outs) := xrun_from key cmp (avl_new key, det0) ops in
+    let '(q, d) := xsstate key cmp ([], map (o_item key) det0) ops in
+    inorder key (a_top key st) = q /\ a_thread key st = q /\ sorted key cmp q /\ wfc key (a_top key st) /\
+    cnt key (a_top key st) = Z.of_nat (length q) /\ map (o_item key) det = d /\
+    xouts_ok key cmp ([], map (o_item key) det0) ops outs.
+Proof. exact avl_relink_refines. Qed.
+Print Assumptions C09_avl_relink_refines.
+
+Theorem C09_gen_avl_insert_clears :
+  forall (key : Type) (o : nobj key) (np itemp olditem pl pr node nprev nprevnext head nnext nnextprev tail treep : Z),
+         np <> 0 ->
+         let
+         '(cl, cr, cc) := c9_avl_clear_node in
+          nullp key cl (o_left key (clear_node key o)) /\
+          nullp key cr (o_right key (clear_node key o)) /\
+          cc = o_count key (clear_node key o) /\
+          leaf_of key o = N E (o_item key o) cc E /\
+          (let
+           '(ret, it, l, r, c) := c9_avl_init_node np itemp olditem pl pr (o_count key o) in
+            ret = np /\ it = itemp /\ l = pl /\ r = pr /\ c = o_count key (init_node key o (o_item key o))) /\
+          (let
+           '(ret, p7, n, pa, hd, tl, top, cl_called, cl_arg) := c9_avl_insert_top np in
+            cl_called = 1 /\ cl_arg = np /\ ret = np /\ p7 = 0 /\ n = 0 /\ pa = 0 /\ hd = np /\ tl = np /\ top = np) /\
+          (let
+           '(ret, n, pa, p10, pn, hd, ndprev, ndleft, cl_called, cl_arg, rb_called, rb_tree, rb_node) :=
+            c9_avl_insert_before_link np node nprev head nprevnext treep in
+            cl_called = 1 /\
+            cl_arg = np /\
+            ret = np /\
+            n = node /\
+            pa = node /\
+            p10 = nprev /\
+            ndprev = np /\
+            ndleft = np /\
+            rb_called = 1 /\
+            rb_tree = treep /\ rb_node = node /\ (nprev <> 0 -> pn = np /\ hd = head) /\ (nprev = 0 -> hd = np /\ pn = nprevnext)) /\
+          (let
+           '(ret, p11, pa, n, nxp, tl, ndnext, ndright, cl_called, cl_arg, rb_called, rb_tree, rb_node) :=
+            c9_avl_insert_after_link np node nnext tail nnextprev treep in
+            cl_called = 1 /\
+            cl_arg = np /\
+            ret = np /\
+            p11 = node /\
+            pa = node /\
+            n = nnext /\
+            ndnext = np /\
+            ndright = np /\
+            rb_called = 1 /\
+            rb_tree = treep /\ rb_node = node /\ (nnext <> 0 -> nxp = np /\ tl = tail) /\ (nnext = 0 -> tl = np /\ nxp = nnextprev)).
+Proof. exact gen_avl_insert_clears. Qed.
+Print Assumptions C09_gen_avl_insert_clears.
 
 (* ---------- tie T1: the models compute what the definitions GENERATED from the current source say ---------- *)
 (* Gen/ContainersC09.v, Gen/AvlStepsC09.v, Gen/KeyValueC09.v are regenerated from /repo on every run (tools/c2g/groups_C09.py).
@@ -899,3 +992,8 @@ Example C09_ex_hash_drain : fst (set_run (Z * Z) (fun a b => fst a =? fst b) [HI
 Proof. vm_compute. reflexivity. Qed.
 Example C09_ex_recycle_peak : peak_run ra_init 0 [RInsert 9 1; RInsert 9 2; RInsert 9 3; RRemove 1; RRemove 0; RRemove 2; RInsert 9 4; RInsert 9 5] = 3.
 Proof. vm_compute. reflexivity. Qed.
+Example C09_ex_avl_relink : (* the root of a three-element tree is unlinked with both subtrees and inserted again at the end *)
+  let '((st, det), outs) := erun_from Z (avl_new Z, []) [EBase Z (QInsBefore Z 9 1); EBase Z (QInsBefore Z 9 2); EBase Z (QInsBefore Z 9 3);
+                                                         EUnlinkAt Z 1; ERelinkBefore Z 9 0 7; EBase Z QForeach] in
+  outs = [QoCnt Z 1; QoCnt Z 2; QoCnt Z 3; QoItem Z (Some 2); QoCnt Z 3; QoList Z [1; 3; 7]] /\ det = [].
+Proof. vm_compute. split; reflexivity. Qed.
